@@ -170,7 +170,7 @@ def main(argv=None):
                 if line not in known_lines:
                     known_lines.append(line)
                 continue
-            o = {"name": nm, "status": "failed-natively", "kind": "bounded", "model": None, "info": fail}
+            o = {"name": nm, "status": "failed-natively", "kind": "bounded", "model": None, "info": {**fail, "_seed": b.get("seed", seed), "_tier": tier}}
             path = _write_replay(prop, o, {"reproduced": True, "native": fail})
             violations.append((o, {"reproduced": True}, path))
 
@@ -235,7 +235,19 @@ def do_replay(mod, prop, path):
     o = {"name": doc["obligation"], "info": doc.get("info") or {}, "replay": doc.get("replay_input"), "model": doc.get("model"),
          "status": doc.get("status")}
     if doc.get("status") == "failed-natively":
-        rep = mod.replay_bounded(doc["info"]) if hasattr(mod, "replay_bounded") else None
+        if hasattr(mod, "replay_bounded"):
+            rep = mod.replay_bounded(doc["info"])
+        else:
+            # the failing input was found by the native driver of this property: run the driver again with the same
+            # seed and tier on the current tree and look for the same failure
+            info = doc.get("info") or {}
+            want = doc["obligation"].split("/")[-1]
+            try:
+                again = mod.bounded(info.get("_tier", "quick"), info.get("_seed", 0)) or []
+                hits = [f for b in again for f in b.get("failures", []) if f.get("id", "") == want]
+                rep = {"reproduced": bool(hits), "native": hits[0] if hits else None, "note": "native driver re-run with the recorded seed"}
+            except Exception as e:
+                rep = {"reproduced": None, "error": f"{type(e).__name__}: {e}"}
     else:
         rep = mod.replay(o) if hasattr(mod, "replay") else None
     print(json.dumps(rep, indent=1, default=str))
